@@ -32,6 +32,10 @@ type Pool struct {
 	evidenceList  *clist.CList // concurrent linked-list of evidence
 	evidenceSize  uint32       // amount of pending evidence
 
+	// pendingMtx makes "look the pending key up, write or delete it, adjust evidenceSize"
+	// one step, so that evidenceSize always equals the number of pending keys
+	pendingMtx sync.Mutex
+
 	// needed to load validators to verify evidence
 	stateDB sm.Store
 	// needed to load headers and commits to verify evidence
@@ -155,8 +159,13 @@ func (evpool *Pool) AddEvidence(ev types.Evidence) error {
 	}
 
 	// 2) Save to store.
-	if err := evpool.addPendingEvidence(ev); err != nil {
+	added, err := evpool.addPendingEvidence(ev)
+	if err != nil {
 		return fmt.Errorf("can't add evidence to pending list: %w", err)
+	}
+	if !added {
+		// another routine added the same evidence, or a block committed it, while we were verifying
+		return nil
 	}
 
 	// 3) Add evidence to clist.
@@ -208,13 +217,17 @@ func (evpool *Pool) CheckEvidence(evList types.EvidenceList) error {
 				return err
 			}
 
-			if err := evpool.addPendingEvidence(ev); err != nil {
+			if _, err := evpool.addPendingEvidence(ev); err != nil {
 				// Something went wrong with adding the evidence but we already know it is valid
 				// hence we log an error and continue
 				evpool.logger.Error("Can't add evidence to pending list", "err", err, "ev", ev)
 			}
 
 			evpool.logger.Info("Check evidence: verified evidence of byzantine behavior", "evidence", ev)
+		} else if evpool.isExpired(ev.Height(), ev.Time()) {
+			// The evidence was verified when it became pending but pruning of the pending
+			// evidence is lazy, so it may have expired since.
+			return &types.ErrInvalidEvidence{Evidence: ev, Reason: errors.New("evidence has expired")}
 		}
 
 		// check for duplicate evidence. We cache hashes so we don't have to work them out again.
@@ -292,35 +305,60 @@ func (evpool *Pool) isPending(evidence types.Evidence) bool {
 	return ok
 }
 
-func (evpool *Pool) addPendingEvidence(ev types.Evidence) error {
+// addPendingEvidence persists the evidence under its pending key. It reports whether the
+// key is new: evidence that is already pending (CheckEvidence re-adds pending light client
+// attack evidence, two routines may add the same evidence at once) is written again but
+// counted once, and evidence that a block has committed in the meantime is not stored.
+func (evpool *Pool) addPendingEvidence(ev types.Evidence) (bool, error) {
 	evpb, err := types.EvidenceToProto(ev)
 	if err != nil {
-		return fmt.Errorf("unable to convert to proto, err: %w", err)
+		return false, fmt.Errorf("unable to convert to proto, err: %w", err)
 	}
 
 	evBytes, err := evpb.Marshal()
 	if err != nil {
-		return fmt.Errorf("unable to marshal evidence: %w", err)
+		return false, fmt.Errorf("unable to marshal evidence: %w", err)
 	}
 
 	key := keyPending(ev)
 
+	evpool.pendingMtx.Lock()
+	defer evpool.pendingMtx.Unlock()
+
+	if evpool.isCommitted(ev) {
+		return false, nil
+	}
+	isNew := !evpool.isPending(ev)
+
 	err = evpool.evidenceStore.Set(key, evBytes)
 	if err != nil {
-		return fmt.Errorf("can't persist evidence: %w", err)
+		return false, fmt.Errorf("can't persist evidence: %w", err)
 	}
-	atomic.AddUint32(&evpool.evidenceSize, 1)
-	return nil
+	if isNew {
+		atomic.AddUint32(&evpool.evidenceSize, 1)
+	}
+	return isNew, nil
 }
 
 func (evpool *Pool) removePendingEvidence(evidence types.Evidence) {
-	key := keyPending(evidence)
-	if err := evpool.evidenceStore.Delete(key); err != nil {
-		evpool.logger.Error("Unable to delete pending evidence", "err", err)
-	} else {
-		atomic.AddUint32(&evpool.evidenceSize, ^uint32(0))
-		evpool.logger.Debug("Deleted pending evidence", "evidence", evidence)
+	evpool.pendingMtx.Lock()
+	defer evpool.pendingMtx.Unlock()
+	evpool.removePendingEvidenceLocked(evidence)
+}
+
+// removePendingEvidenceLocked deletes the evidence from the pending list if it is there.
+// It reports whether it was. CONTRACT: pendingMtx is held.
+func (evpool *Pool) removePendingEvidenceLocked(evidence types.Evidence) bool {
+	if !evpool.isPending(evidence) {
+		return false
 	}
+	if err := evpool.evidenceStore.Delete(keyPending(evidence)); err != nil {
+		evpool.logger.Error("Unable to delete pending evidence", "err", err)
+		return false
+	}
+	atomic.AddUint32(&evpool.evidenceSize, ^uint32(0))
+	evpool.logger.Debug("Deleted pending evidence", "evidence", evidence)
+	return true
 }
 
 // markEvidenceAsCommitted processes all the evidence in the block, marking it as
@@ -328,8 +366,11 @@ func (evpool *Pool) removePendingEvidence(evidence types.Evidence) {
 func (evpool *Pool) markEvidenceAsCommitted(evidence types.EvidenceList) {
 	blockEvidenceMap := make(map[string]struct{}, len(evidence))
 	for _, ev := range evidence {
-		if evpool.isPending(ev) {
-			evpool.removePendingEvidence(ev)
+		// The evidence leaves the pending list and gets its committed marker in one step, so
+		// that a concurrent AddEvidence of the same evidence either is removed here or sees
+		// the marker (see addPendingEvidence).
+		evpool.pendingMtx.Lock()
+		if evpool.removePendingEvidenceLocked(ev) {
 			blockEvidenceMap[evMapKey(ev)] = struct{}{}
 		}
 
@@ -341,12 +382,10 @@ func (evpool *Pool) markEvidenceAsCommitted(evidence types.EvidenceList) {
 		evBytes, err := proto.Marshal(&h)
 		if err != nil {
 			evpool.logger.Error("failed to marshal committed evidence", "err", err, "key(height/hash)", key)
-			continue
-		}
-
-		if err := evpool.evidenceStore.Set(key, evBytes); err != nil {
+		} else if err := evpool.evidenceStore.Set(key, evBytes); err != nil {
 			evpool.logger.Error("Unable to save committed evidence", "err", err, "key(height/hash)", key)
 		}
+		evpool.pendingMtx.Unlock()
 	}
 
 	// remove committed evidence from the clist
@@ -515,8 +554,12 @@ func (evpool *Pool) processConsensusBuffer(state sm.State) {
 			continue
 		}
 
-		if err := evpool.addPendingEvidence(dve); err != nil {
+		added, err := evpool.addPendingEvidence(dve)
+		if err != nil {
 			evpool.logger.Error("failed to flush evidence from consensus buffer to pending list: %w", err)
+			continue
+		}
+		if !added {
 			continue
 		}
 
